@@ -17,7 +17,7 @@ namespace allocsim {
 
 static std::vector<Reg>& registry() {
     static std::vector<Reg> r;
-    if (r.empty()) { register_core(r); register_fmt(r); register_query(r); register_schema(r); register_stateful(r); }
+    if (r.empty()) { register_core(r); register_fmt(r); register_query(r); register_schema(r); register_stateful(r); register_typed(r); }
     return r;
 }
 
